@@ -85,7 +85,8 @@ ShouldAddAll(ps, x) == AllowAll(ps, x) /\ ~InOverlay(x)                \* LightH
 EmptyCell == [v4 |-> <<>>, v6 |-> <<>>, rel |-> <<>>, l4 |-> 0, l6 |-> 0]
 NewList(vpn) == [vpn |-> vpn, c |-> EmptyF, dns |-> {}, bad |-> {}]
 
-\* n : [am, lhs, static, map : overlay -> list number, lists : Seq(list), remote : peer -> underlay or 0,
+\* n : [am (role, fixed at start-up), amf (lighthouse.am_lighthouse in the configuration file now), lhs (lighthouse.hosts now),
+\*      static, map : overlay -> list number, lists : Seq(list), remote : peer -> underlay or 0,
 \*      wr : <<key, owner>> -> set of overlay addresses of the certificate that wrote the cell (history, for OwnerAuth)]
 
 AnyLH(n, from) == Range(from) \cap n.lhs # {}                          \* IsAnyLighthouseAddr
@@ -144,16 +145,46 @@ HUpdate(n, m) ==
     IF ~n.am \/ (m.cl # "" /\ m.cl \notin Range(m.from)) THEN [n |-> n, eff |-> NoEff]
     ELSE HUpdate2(GetList(n, m.from), m)
 
+\* static_host_map (at start-up and when a reload changes it): addStaticRemotes (owner = me) + the resolver results kept
+\* for collect time.  A literal is the address it spells (an IPv4-mapped literal is that IPv4 address).  Entries are
+\* prepended to my cell of the list (empty at start-up; after a reload a list shared by two static addresses of one
+\* certificate holds the entries of both).
+AddStatic3(n, id, p, addrs, ok) ==
+    [n EXCEPT !.lists[id].c = Put(@, Me, [CellOf(n.lists[id], Me) EXCEPT
+                                            !.v4 = First(SelectSeq(ok, LAMBDA x : UFam(x) = 4) \o @, MaxRemotes),
+                                            !.v6 = First(SelectSeq(ok, LAMBDA x : UFam(x) = 6) \o @, MaxRemotes)]),
+              !.lists[id].dns = Range(addrs), !.static = @ \cup {p}]
+AddStatic2(g, p, addrs) == AddStatic3(g.n, g.id, p, addrs, SelectSeq(addrs, LAMBDA x : ShouldAddAll({p}, x)))
+AddStatic(n, p, addrs) == AddStatic2(GetList(n, <<p>>), p, UnmapSeq(addrs))
+RECURSIVE WithStatics(_, _)
+WithStatics(n, ss) == IF ss = <<>> THEN n ELSE WithStatics(AddStatic(n, Head(ss)[1], Head(ss)[2]), Tail(ss))
+\* every configured lighthouse has a static_host_map entry (30 + k = 192.0.2.(30+k))
+StaticsOf(lhs) == LET s == <<"L0", "S1", "S2", "S6", "O1">> IN
+                  SelectSeq([i \in 1..5 |-> <<s[i], <<30 + i>>>>], LAMBDA e : e[1] \in lhs)
+
 \* punch targets: allowed for the peer AND outside my overlay networks (the design; C36)
 HPunch(n, m) ==
     IF ~AnyLH(n, m.from) \/ m.cl = "" THEN [n |-> n, eff |-> NoEff]
-    ELSE [n |-> n, eff |-> [NoEff EXCEPT !.punches = {x \in Range(m.v4) \cup Range(m.v6) : ShouldAdd(m.cl, x)},
+    ELSE [n |-> n, eff |-> [NoEff EXCEPT !.punches = {Unmap(x) : x \in {y \in Range(m.v4) \cup Range(m.v6) : ShouldAdd(m.cl, y)}},
                                          !.back = <<m.cl>>]]
+
+\* SIGHUP: lighthouse.hosts is replaced (every lighthouse needs a static_host_map entry: the entries of new lighthouses are
+\* added in the same reload, entries of former lighthouses stay).  lighthouse.am_lighthouse is read once at start-up:
+\* the role does not change.  Handlers (one per reader routine) outlive reloads: nothing else changes.
+\* When static_host_map changed, my cells of all formerly static hosts are emptied (ResetForOwner) and every entry of the
+\* new map is added again.
+ResetMine(n, ids) == [n EXCEPT !.lists = [i \in 1..Len(n.lists) |->
+                         IF i \in ids /\ Me \in DOMAIN n.lists[i].c THEN [n.lists[i] EXCEPT !.c[Me].v4 = <<>>, !.c[Me].v6 = <<>>]
+                         ELSE n.lists[i]]]
+HReload2(n, n1, m) == IF m.lhs \subseteq n.static THEN n1
+                      ELSE WithStatics(ResetMine(n1, {n.map[p] : p \in n.static}), StaticsOf(n.static \cup m.lhs))
+HReload(n, m) == [n |-> HReload2(n, [n EXCEPT !.lhs = m.lhs, !.amf = IF m.flip THEN ~n.am ELSE n.am], m), eff |-> NoEff]
 
 Handle(n, m) == CASE m.t = "Query"      -> HQuery(n, m)
                   [] m.t = "QueryReply" -> HReply(n, m)
                   [] m.t = "Update"     -> HUpdate(n, m)
                   [] m.t = "Punch"      -> HPunch(n, m)
+                  [] m.t = "Reload"     -> HReload(n, m)
                   [] OTHER              -> [n |-> n, eff |-> NoEff]     \* UpdateAck, Moved, unknown types
 
 \* what the harness compares: for every addrMap key, the cells reachable under it
@@ -162,9 +193,13 @@ View(n) == [k \in DOMAIN n.map |-> n.lists[n.map[k]].c]
 -----------------------------------------------------------------------------
 (* Reference, C35 *)
 \* kinds of effect the statement allows message m to have on node n, and where it may be recorded
+\* "configured as a lighthouse": the role the node started with; after a reload whose file says otherwise the statement
+\* can be read either way (the weaker reading: what either role may do), the machine keeps the start-up role.
+\* "its configured lighthouses": lighthouse.hosts as of the last reload (n.lhs is state).
+AmRole(n) == n.am \/ n.amf
 Permitted(n, m) ==
-    [kinds |-> (IF n.am /\ m.t = "Query" THEN {"answer"} ELSE {})
-               \cup (IF n.am /\ m.t = "Update" /\ (m.cl = "" \/ m.cl \in Range(m.from)) THEN {"store", "ack"} ELSE {})
+    [kinds |-> (IF AmRole(n) /\ m.t = "Query" THEN {"answer"} ELSE {})
+               \cup (IF AmRole(n) /\ m.t = "Update" /\ (m.cl = "" \/ m.cl \in Range(m.from)) THEN {"store", "ack"} ELSE {})
                \cup (IF AnyLH(n, m.from) /\ m.t = "QueryReply" /\ m.cl # "" THEN {"store", "trigger"} ELSE {})
                \cup (IF AnyLH(n, m.from) /\ m.t = "Punch" THEN {"punch"} ELSE {}),
      keys   |-> IF m.t = "Update" THEN Range(m.from) ELSE IF m.t = "QueryReply" THEN {m.cl} ELSE {},
@@ -191,7 +226,12 @@ StepOK3(n2, m, e, p, ch) ==
                      /\ (m.t = "Update" => Keys(n2, x[1]) \subseteq p.keys)
                      /\ (m.t = "QueryReply" => p.keys \subseteq Keys(n2, x[1]))
 StepOK2(n, m, r) == StepOK3(r.n, m, r.eff, Permitted(n, m), Changed(n, r.n))
-StepOK(n, m) == StepOK2(n, m, Handle(n, m))
+\* a reload has no effect of its own: the role stays, the lighthouses are the configured ones, only my own (static) cells change
+ReloadOK(n, m, r) == /\ r.eff = NoEff /\ r.n.am = n.am /\ r.n.lhs = m.lhs
+                     /\ \A x \in Changed(n, r.n) : x[2] = Me
+\* (r = Handle(n, m), passed in so that TLC evaluates it once)
+StepOKr(n, m, r) == IF m.t = "Reload" THEN ReloadOK(n, m, r) ELSE StepOK2(n, m, r)
+StepOK(n, m) == StepOKr(n, m, Handle(n, m))
 \* every cell not owned by me was written by a certificate that lists the owner
 OwnerAuthOK(n) == \A x \in DOMAIN n.wr : x[2] \in n.wr[x]
 
@@ -200,15 +240,6 @@ OwnerAuthOK(n) == \A x \in DOMAIN n.wr : x[2] \in n.wr[x]
 Peers == {"P1", "P2", "P3"}
 ListOf(n, p) == n.lists[n.map[p]]
 Known(n, p) == p \in DOMAIN n.map
-
-\* static_host_map at start-up: addStaticRemotes (owner = me) + the resolver results kept for collect time
-AddStatic3(n, id, p, addrs, ok) ==
-    [n EXCEPT !.lists[id].c = Put(@, Me, [CellOf(n.lists[id], Me) EXCEPT
-                                            !.v4 = First(SelectSeq(ok, LAMBDA x : UFam(x) = 4), MaxRemotes),
-                                            !.v6 = First(SelectSeq(ok, LAMBDA x : UFam(x) = 6), MaxRemotes)]),
-              !.lists[id].dns = Range(addrs), !.static = @ \cup {p}]
-AddStatic2(g, p, addrs) == AddStatic3(g.n, g.id, p, addrs, SelectSeq(addrs, LAMBDA x : ShouldAddAll({p}, x)))
-AddStatic(n, p, addrs) == AddStatic2(GetList(n, <<p>>), p, addrs)
 
 \* addCalculatedRemotes (only for peers that are not static: StartHandshake)
 Calc2(n, id, p, addrs) ==
@@ -230,8 +261,8 @@ Block(n, p, x)  == Block2(GetList(n, <<p>>), x)
 Delete(n, p) == IF p \in n.static \/ ~Known(n, p) THEN n
                 ELSE [n EXCEPT !.map = Drop(@, Keys(n, n.map[p])), !.remote[p] = 0]
 
-\* the candidate list of a peer (C37 orders it; here it is a set)
-CandL(l) == ((UNION {Range(l.c[o].v4) \cup Range(l.c[o].v6) \cup ({l.c[o].l4, l.c[o].l6} \ {0}) : o \in DOMAIN l.c})
+\* the candidate list of a peer (C37 orders it; here it is a set): addresses, whatever spelling the cache holds
+CandL(l) == ({Unmap(x) : x \in UNION {Range(l.c[o].v4) \cup Range(l.c[o].v6) \cup ({l.c[o].l4, l.c[o].l6} \ {0}) : o \in DOMAIN l.c}}
              \cup {x \in l.dns : ShouldAddAll(Range(l.vpn), x)}) \ l.bad
 Candidates(n, p) == IF ~Known(n, p) THEN {} ELSE CandL(ListOf(n, p))
 
@@ -254,11 +285,8 @@ Cap10OK(n) == \A i \in 1..Len(n.lists) : \A o \in DOMAIN n.lists[i].c :
 
 -----------------------------------------------------------------------------
 (* Nodes *)
-Node0(am, lhs) == [am |-> am, lhs |-> lhs, static |-> {}, map |-> EmptyF, lists |-> <<>>,
+Node0(am, lhs) == [am |-> am, amf |-> am, lhs |-> lhs, static |-> {}, map |-> EmptyF, lists |-> <<>>,
                    remote |-> [p \in Peers |-> 0], wr |-> EmptyF]
-\* every configured lighthouse has a static_host_map entry (30 + k = 192.0.2.(30+k))
-RECURSIVE WithStatics(_, _)
-WithStatics(n, ss) == IF ss = <<>> THEN n ELSE WithStatics(AddStatic(n, Head(ss)[1], Head(ss)[2]), Tail(ss))
 
 -----------------------------------------------------------------------------
 (* C35 vectors *)
@@ -274,14 +302,15 @@ Payloads == [none |-> [v4 |-> <<>>, v6 |-> <<>>, rel |-> <<>>],
              six  |-> [v4 |-> <<2>>, v6 |-> <<47, 48>>, rel |-> <<"R2">>],     \* other and more IPv6 addresses than `all`:
                                                                                  \* whatever one message leaves behind in the handler shows
              nd   |-> [v4 |-> <<>>, v6 |-> <<>>, rel |-> <<>>]]        \* message without a Details field at all
-Types == {"Query", "QueryReply", "Update", "UpdateAck", "Moved", "Punch", "Unknown"}
 
 Msg(from, t, cl, enc, pl) == [from |-> from, t |-> t, cl |-> IF pl = "nd" THEN "" ELSE cl, enc |-> enc, v4 |-> Payloads[pl].v4, v6 |-> Payloads[pl].v6,
                               rel |-> Payloads[pl].rel, nd |-> pl = "nd"]
 
+\* a configuration reload: lighthouse.hosts := lhs; flip: the file's lighthouse.am_lighthouse is the opposite of the start-up role
+Rl(lhs, flip) == [from |-> <<>>, t |-> "Reload", cl |-> "", enc |-> 0, v4 |-> <<>>, v6 |-> <<>>, rel |-> <<>>, nd |-> FALSE,
+                  lhs |-> lhs, flip |-> flip]
+
 LhSet(from, mode) == {"L0"} \cup (CASE mode = "none" -> {} [] mode = "pri" -> {from[1]} [] mode = "sec" -> {from[2]})
-StaticsOf(lhs) == LET s == <<"L0", "S1", "S2", "S6">> IN
-                  SelectSeq([i \in 1..4 |-> <<s[i], <<30 + i>>>>], LAMBDA e : e[1] \in lhs)
 C35Node(am, lhs) == WithStatics(Node0(am, lhs), StaticsOf(lhs))
 
 \* a v1 message cannot name an IPv6 overlay address
@@ -295,7 +324,7 @@ WarmUp(am, from) == IF am THEN << Msg(<<"O1">>, "Update", "O1", 2, "all"), Msg(f
 RECURSIVE RunMsgs(_, _)
 MsgStep(n, r, ms) ==
     << [eff |-> r.eff, view |-> View(r.n), perm |-> Permitted(n, Head(ms)),
-        ok |-> StepOK(n, Head(ms)) /\ OwnerAuthOK(r.n) /\ Cap10OK(r.n)] >> \o RunMsgs(r.n, Tail(ms))
+        ok |-> StepOKr(n, Head(ms), r) /\ OwnerAuthOK(r.n) /\ Cap10OK(r.n)] >> \o RunMsgs(r.n, Tail(ms))
 RunMsgs(n, ms) == IF ms = <<>> THEN <<>> ELSE MsgStep(n, Handle(n, Head(ms)), ms)
 
 \* alphabet of the C35 histories; an overlay address belongs to one certificate: S = (S1, S2), T = (T6, T1), O, L0
@@ -313,13 +342,20 @@ Alphabet ==
        \* the same kinds of message carrying other IPv6 addresses (legitimate and not)
        Msg(<<"S1", "S2">>, "Update", "S1", 2, "six"),  Msg(<<"O1">>, "Update", "S2", 2, "six"),
        Msg(<<"O1">>, "Query", "S1", 2, "six"),         Msg(<<"S1", "S2">>, "QueryReply", "O1", 2, "six"),
-       Msg(<<"L0">>, "QueryReply", "S1", 2, "six"),    Msg(<<"O1">>, "Punch", "S1", 2, "six") >>
+       Msg(<<"L0">>, "QueryReply", "S1", 2, "six"),    Msg(<<"O1">>, "Punch", "S1", 2, "six"),
+       \* reloads: a lighthouse (S = (S1, S2), O) is added to / removed from lighthouse.hosts; the role flips in the file
+       Rl({"L0"}, FALSE),  Rl({"L0", "S2"}, FALSE),  Rl({"L0", "O1"}, FALSE),  Rl({"L0", "S2"}, TRUE) >>
 
 -----------------------------------------------------------------------------
 (* C36 vectors *)
 C36Lhs == {"L1", "L2"}
 C36Statics == << <<"L1", <<31>>>>, <<"L2", <<32>>>>, <<"P2", <<33, 4, 6, 7, 3, 44>>>>, <<"P3", <<34, 7, 5, 8, 44, 46>>>> >>
-C36Node(am) == WithStatics(Node0(am, C36Lhs), C36Statics)
+\* the same with literals spelled as IPv4-mapped IPv6 addresses: allowed (140, 139), inside my overlay networks (141), denied
+\* globally (142), denied for P3's range (143)
+C36StaticsM == << <<"L1", <<31>>>>, <<"L2", <<32>>>>, <<"P2", <<33, 4, 6, 7, 3, 44, 140, 141, 142>>>>,
+                  <<"P3", <<34, 7, 5, 8, 44, 46, 139, 143>>>> >>
+StaticsFor(sm) == IF sm THEN C36StaticsM ELSE C36Statics
+C36Node(am, sm) == WithStatics(Node0(am, C36Lhs), StaticsFor(sm))
 CalcAddrs == <<40, 41, 42, 43>>              \* lighthouse.calculated_remotes for 10.128.1.0/24 applied to P1 = 10.128.1.5
 
 \* what a source offers: an allowed address together with one address of the class
@@ -328,9 +364,17 @@ Offer(c) == CASE c = "ok"  -> <<1, 2>>   [] c = "ov4" -> <<1, 4>>   [] c = "ov6"
               [] c = "dp6" -> <<44, 3, 7>>              \* denied for the peer's range only, IPv6 (and IPv4)
               [] c = "dl"  -> <<45, 46, 1>>             \* denied for the SENDER's (lighthouse's) range only: usable for the peer
               [] c = "many" -> <<11, 12, 13, 14, 15, 16, 17, 18, 19, 20, 21, 22>>
-Classes == <<"ok", "ov4", "ov6", "dg", "dp", "dp6", "dl", "bad", "many">>
-V4s(s) == SelectSeq(s, LAMBDA x : UFam(x) = 4)
-V6s(s) == SelectSeq(s, LAMBDA x : UFam(x) = 6)
+              \* the IPv4 classes once more, spelled as IPv4-mapped entries of V6AddrPorts
+              [] c = "mok"  -> <<101, 2>>               \* allowed
+              [] c = "mov4" -> <<1, 104, 3>>            \* inside my overlay networks
+              [] c = "mdg"  -> <<106, 1>>               \* denied globally
+              [] c = "mdp"  -> <<107, 2, 143>>          \* denied for the peer's range
+              [] c = "mdl"  -> <<145, 1>>               \* denied for the SENDER's range only
+              [] c = "mbad" -> <<109, 1>>               \* (to be) marked bad
+Classes == <<"ok", "ov4", "ov6", "dg", "dp", "dp6", "dl", "bad", "many", "mok", "mov4", "mdg", "mdp", "mdl", "mbad">>
+MappedClasses == {"mok", "mov4", "mdg", "mdp", "mdl", "mbad"}
+V4s(s) == SelectSeq(s, LAMBDA x : WFam(x) = 4)
+V6s(s) == SelectSeq(s, LAMBDA x : WFam(x) = 6)
 
 \* events: <<kind, args...>>
 Ev(n, e) ==
@@ -345,19 +389,20 @@ Ev(n, e) ==
       [] k = "block"  -> [n |-> Block(n, e[2], e[3]), eff |-> NoEff]
       [] k = "delete" -> [n |-> Delete(n, e[2]), eff |-> NoEff]
       [] k = "none"   -> [n |-> n, eff |-> NoEff]
+      [] k = "static" -> [n |-> n, eff |-> NoEff]        \* (the state after start-up is observed)
 
 \* static entries that pass the filters stay candidates whatever happens (unless marked bad)
-StaticKept2(n, p, addrs, cand) == \A x \in Range(addrs) : (ShouldAddAll({p}, x) /\ x \notin ListOf(n, p).bad) => x \in cand
-StaticKeptOK(n) == \A i \in 1..Len(C36Statics) :
-    C36Statics[i][1] \in Peers => StaticKept2(n, C36Statics[i][1], C36Statics[i][2], Candidates(n, C36Statics[i][1]))
+StaticKept2(n, p, addrs, cand) == \A x \in Range(addrs) : (ShouldAddAll({p}, x) /\ Unmap(x) \notin ListOf(n, p).bad) => Unmap(x) \in cand
+StaticKeptOK(n, st) == \A i \in 1..Len(st) :
+    st[i][1] \in Peers => StaticKept2(n, st[i][1], st[i][2], Candidates(n, st[i][1]))
 
 \* (the result of a step is passed as an operator argument so that TLC evaluates it once)
-RECURSIVE RunEvs(_, _)
-EvStep(r, es) ==
+RECURSIVE RunEvs(_, _, _)
+EvStep(r, es, st) ==
     << [punches |-> r.eff.punches, dest |-> Dest(r.n), view |-> View(r.n),
-        ok |-> NoBadDestOK(r.n) /\ Cap10OK(r.n) /\ StaticKeptOK(r.n) /\ OwnerAuthOK(r.n)
-               /\ \A x \in r.eff.punches : ~StaticBad(Head(es)[3], x)] >> \o RunEvs(r.n, Tail(es))
-RunEvs(n, es) == IF es = <<>> THEN <<>> ELSE EvStep(Ev(n, Head(es)), es)
+        ok |-> NoBadDestOK(r.n) /\ Cap10OK(r.n) /\ StaticKeptOK(r.n, st) /\ OwnerAuthOK(r.n)
+               /\ \A x \in r.eff.punches : ~StaticBad(Head(es)[3], x)] >> \o RunEvs(r.n, Tail(es), st)
+RunEvs(n, es, st) == IF es = <<>> THEN <<>> ELSE EvStep(Ev(n, Head(es)), es, st)
 
 \* a source event for peer p offering class c
 SrcEv(s, p, c) == CASE s = "reply1" -> <<"reply", "L1", p, Offer(c)>>
@@ -372,31 +417,51 @@ Sources == <<"reply1", "reply2", "update", "punch", "learn", "roam", "dns", "cal
 \* events that make sense: updates only reach a lighthouse; dns results exist for static hosts; calculated remotes for
 \* non-static peers in the configured range; learned sources never see a datagram from inside my overlay networks
 \* (outside.go drops those before any tunnel lookup)
+\* the spelling is a property of lighthouse messages: addresses learned from a socket and resolver results arrive as
+\* the udp layer / the resolver loop hand them over (unmapped)
 Sensible(am, s, p, c) == /\ (s = "update" => am)
+                         /\ (c \in MappedClasses => s \in {"reply1", "reply2", "update", "punch"})
                          /\ (s = "dns" => p \in {"P2", "P3"})
                          /\ (s = "calc" => p = "P1" /\ c = "ok")
                          /\ (s \in {"learn", "roam"} => c \notin {"ov4", "ov6", "many"})
 Thirds(p) == << <<"none">>, <<"block", p, 9>>, <<"delete", p>>, <<"block", p, 1>> >>
+\* second events of the histories on the node whose static_host_map holds IPv4-mapped literals
+SmSeconds == << <<"none">>, <<"block", "P2", 40>>, <<"block", "P3", 39>>, <<"delete", "P2">>, <<"dns", "P2", <<33, 40, 41>>>>,
+                <<"reply", "L1", "P2", <<101, 104, 2>>>>, <<"reply", "L2", "P3", <<107, 139>>>>, <<"punch", "L1", "P3", <<143, 139, 1>>>>,
+                <<"learn", "P2", 40>>, <<"roam", "P3", 39>> >>
 
 -----------------------------------------------------------------------------
 VARIABLES in, exp
 vars == <<in, exp>>
 
+SkS == <<"single", "multi44", "multi46", "multi64">>
+ModeS == <<"none", "pri", "sec">>
+TypeS == <<"Query", "QueryReply", "Update", "UpdateAck", "Moved", "Punch", "Unknown">>
+ClaimS == <<"pri", "sec", "other", "unknown", "unset">>
+PlS == <<"none", "v4", "all", "six", "nd">>
+
 Init ==
-    \/ /\ Mode = "C35V"       \* the gate table: every single message after the legitimate warm-up
-       /\ \E am \in BOOLEAN, sk \in DOMAIN Senders, mode \in {"none", "pri", "sec"}, t \in Types,
-             c \in {"pri", "sec", "other", "unknown", "unset"}, enc \in {1, 2}, pl \in DOMAIN Payloads :
-            LET from == Senders[sk]
-                m == Msg(from, t, Claim(from, c), enc, pl) IN
-            /\ (mode = "sec" \/ c = "sec") => Len(from) > 1
+    \/ /\ Mode = "C35V"       \* the gate table: every single message after the legitimate warm-up; and every row once more
+                              \* after a reload that adds the sender to / removes it from lighthouse.hosts (m0 -> m1: the
+                              \* sender's certificate lists no / its primary / only its secondary address among the
+                              \* configured lighthouses) and / or flips lighthouse.am_lighthouse in the file
+       /\ \E am \in BOOLEAN, ski \in 1..Len(SkS), m0 \in 1..3, m1 \in 1..3, flip \in BOOLEAN, ti \in 1..Len(TypeS),
+             ci \in 1..Len(ClaimS), enc \in {1, 2}, pli \in 1..Len(PlS) :
+            LET from == Senders[SkS[ski]]
+                m == Msg(from, TypeS[ti], Claim(from, ClaimS[ci]), enc, PlS[pli])
+                rl == m1 # m0 \/ flip IN
+            /\ (ModeS[m0] = "sec" \/ ModeS[m1] = "sec" \/ ClaimS[ci] = "sec") => Len(from) > 1
             /\ Representable(m)
-            /\ in = [am |-> am, lhs |-> LhSet(from, mode), msgs |-> WarmUp(am, from) \o <<m>>]
+            \* quick: a sample of the reload rows (thinner for the message types no node reacts to)
+            /\ (~rl \/ Thorough \/ (ski + 3 * ci + enc + 2 * pli + ti + m0 + 2 * m1 + Salt) % (IF ti \in {4, 5, 7} THEN 40 ELSE 8) = 0)
+            /\ in = [am |-> am, lhs |-> LhSet(from, ModeS[m0]),
+                     msgs |-> WarmUp(am, from) \o (IF rl THEN <<Rl(LhSet(from, ModeS[m1]), flip)>> ELSE <<>>) \o <<m>>]
             /\ exp = RunMsgs(C35Node(am, in.lhs), in.msgs)
-    \/ /\ Mode = "C35R"       \* histories of at most 3 messages
+    \/ /\ Mode = "C35R"       \* histories of at most 3 steps (messages and reloads)
        /\ \E am \in BOOLEAN, lhs \in {{"L0"}, {"L0", "S2"}} :
           \E i \in 1..Len(Alphabet), j \in 0..Len(Alphabet), k \in 0..Len(Alphabet) :
             /\ (j = 0 => k = 0)
-            /\ (Thorough \/ k = 0 \/ (i + 2 * j + k) % 16 = 0)
+            /\ (k = 0 \/ (i + 2 * j + k + Salt) % (IF Thorough THEN 2 ELSE 24) = 0)   \* three steps: a sample
             /\ in = [am |-> am, lhs |-> lhs,
                      msgs |-> <<Alphabet[i]>> \o (IF j = 0 THEN <<>> ELSE <<Alphabet[j]>>) \o (IF k = 0 THEN <<>> ELSE <<Alphabet[k]>>)]
             /\ exp = RunMsgs(C35Node(am, lhs), in.msgs)
@@ -411,9 +476,17 @@ Init ==
             /\ Sensible(am, Sources[s2], p2, Classes[c2])
             /\ Sensible(am, Sources[s4], p1, Classes[c4])
             /\ (Thorough \/ (s1 + c1 + s2 + t3) % 2 = 0 \/ s2 = s1)
-            /\ in = [am |-> am, evs |-> << SrcEv(Sources[s1], p1, Classes[c1]), SrcEv(Sources[s2], p2, Classes[c2]),
-                                           Thirds(p1)[t3], SrcEv(Sources[s4], p1, Classes[c4]) >>]
-            /\ exp = RunEvs(C36Node(am), in.evs)
+            /\ in = [am |-> am, sm |-> FALSE,
+                     evs |-> << SrcEv(Sources[s1], p1, Classes[c1]), SrcEv(Sources[s2], p2, Classes[c2]),
+                                Thirds(p1)[t3], SrcEv(Sources[s4], p1, Classes[c4]) >>]
+            /\ exp = RunEvs(C36Node(am, FALSE), in.evs, C36Statics)
+    \/ /\ Mode = "C36R"       \* static_host_map with IPv4-mapped literals: the state after start-up, an event, a message source
+       /\ \E am \in BOOLEAN, e2 \in 1..Len(SmSeconds), s3 \in 1..4, c3 \in 1..Len(Classes), p3 \in {"P2", "P3"} :
+            /\ Sensible(am, Sources[s3], p3, Classes[c3])
+            /\ (Thorough \/ (e2 + s3 + c3 + Salt) % 8 = 0)
+            /\ in = [am |-> am, sm |-> TRUE,
+                     evs |-> << <<"static">>, SmSeconds[e2], SrcEv(Sources[s3], p3, Classes[c3]) >>]
+            /\ exp = RunEvs(C36Node(am, TRUE), in.evs, C36StaticsM)
 
 Next == UNCHANGED vars
 Spec == Init /\ [][Next]_vars
